@@ -158,7 +158,7 @@ def run(ctx):
                         'opt(..)/alt(..) form' % (name, ca[0][1]))
     r.counts['conditional_parser_applications'] = n
     r.floor('functions_scanned', r.instances, 1000)
-    return [r, run_order(ctx)]
+    return [r, run_order(ctx), run_directive_mode(ctx)]
 
 
 FLIPS = ('pop', 'rev', 'reverse')
@@ -227,4 +227,56 @@ def run_order(ctx):
                 r.undecided('%s:%s:reversed:%s' % (g.crate, name, v), fl[0][1], '%s applies %s to `%s`: an even number of reversals, order not decided' % (name, [m for m, _ in fl], v))
     r.counts['parsed_values_tracked'] = nvars
     r.floor('parsed_values_tracked', nvars, 2000)
+    return r
+
+
+def run_directive_mode(ctx):
+    """G23 — directive mode is entered exactly by the parsers that build a CompilerDirective node (the directives kept as trivia).
+    In directive mode white_space accepts blanks only; a production that is ALSO reachable outside trivia (a description-level
+    `resetall) and switches the mode on for itself collects its trailing trivia in the restricted mode: a comment or a directive
+    after it is then attached to no token and the source is rejected (C12: which trivia follows must not decide acceptance)."""
+    g = ctx.grammar
+    r = RuleResult('G23', 'directive mode (blanks-only trivia) is entered exactly by the parsers that build a CompilerDirective node')
+    enter = set()
+    builders = set()
+    for name, f in g.fns.items():
+        body = f.item.get('body')
+        if not body or f.kind not in ('parser', 'helper'):
+            continue
+        for n in sx.walk(body):
+            if sx.is_call(n, 'begin_directive'):
+                enter.add(name)
+            if n.get('k') == 'path' and n['p'].startswith('CompilerDirective::'):
+                builders.add(name)
+    r.inst('enterers', {'functions_calling_begin_directive': sorted(enter), 'builders_of_CompilerDirective': sorted(builders)})
+    r.floor('compiler_directive_builders', len(builders), 1)
+    # a private wrapper that only the builders use carries the mode for them
+    callers = {}
+    for name, f in g.fns.items():
+        body = f.item.get('body')
+        if body:
+            for n in sx.walk(body):
+                if n.get('k') == 'path' and n['p'] in g.fns and n['p'] != name:
+                    callers.setdefault(n['p'], set()).add(name)
+    ok_wrappers = set()
+    changed = True
+    while changed:
+        changed = False
+        for name in enter - builders - ok_wrappers:
+            cs = callers.get(name, set())
+            if cs and cs <= (builders | ok_wrappers):
+                ok_wrappers.add(name)
+                changed = True
+    for name in sorted(enter - builders - ok_wrappers):
+        f = g.fns[name]
+        r.inst(name)
+        r.fail('%s:%s:directive-mode-outside-trivia' % (g.crate, name), '%s/%s:%d' % (g.crate, f.file, f.line),
+               '%s switches directive mode on although it does not build a CompilerDirective node: the tokens it reads (and the trivia after them) are lexed with blanks-only '
+               'white space, so a comment or a directive that follows is attached to no token — where %s is reached outside trivia the source is rejected' % (name, name))
+    for name in sorted(builders - enter):
+        if any(w_ in [n['p'] for n in sx.walk(g.fns[name].item['body']) if n.get('k') == 'path'] for w_ in ok_wrappers):
+            continue
+        f = g.fns[name]
+        r.fail('%s:%s:directive-without-mode' % (g.crate, name), '%s/%s:%d' % (g.crate, f.file, f.line),
+               '%s builds a CompilerDirective node without entering directive mode: inside the directive comments and nested directives are taken as trivia' % name)
     return r
